@@ -196,6 +196,7 @@ def check(ctx):
     fix_structure(ctx)
     consumers(ctx)
     invalidate.check_invalidation(ctx, GP)
+    invalidate.check_unconditional_recompute(ctx, f'{GP}._update_comb_fixed_mask', '_comb_fixed_mask')
     roots = [ctx.fn(f'{GP}.{r}') for r in ('fix_des_var', 'free_des_var', 'get_graph')]
     fns, _ = decode.decode_slice(ctx, extra_roots=[f'{GP}.fix_des_var', f'{GP}.free_des_var'])
     ps = persist.Persist(ctx, roots, fns)
